@@ -193,6 +193,23 @@ func runXzCase(r *Result, dp *DriverPool, prop string, cs xzCase, sizes []int64)
 					viol("counterexample", fmt.Sprintf("dict-code %d for capacity %d", b.DC, c.DictCap), "declared dictionary size is not the smallest representable size >= DictCap")
 				}
 			}
+			// functional tie of the block bookkeeping (Model/XzWriter.lean): the model predicts every block's size
+			if bsz > 0 && bsz < 1<<40 {
+				q := fmt.Sprintf("xwrun %d", bsz)
+				for _, k := range cs.Parts {
+					q += fmt.Sprintf(" %d", k)
+				}
+				if rep, err := dp.Ask(q); err == nil {
+					var got []string
+					for _, b := range blocks {
+						got = append(got, fmt.Sprint(b.U))
+					}
+					r.Inc("xzwriter_model_histories")
+					if strings.TrimSpace(rep) != strings.Join(got, " ") {
+						viol("broken-correspondence", "xzwriter-model block sizes", fmt.Sprintf("the Lean model of the xz writer's block bookkeeping predicts block sizes [%s], the real output has [%s]", truncate(rep, 80), truncate(strings.Join(got, " "), 80)))
+					}
+				}
+			}
 			if !strings.Contains(m.Info, fmt.Sprintf("S flags=%d ", checksumOf(c))) {
 				viol("counterexample", "check-type", "stream flags do not carry the configured check: "+truncate(m.Info, 80))
 			}
